@@ -347,6 +347,16 @@ Definition MarshalBristol (c : fcircuit) : list byte :=
   bristol_ioline (c_inputs c) ++ bristol_ioline (c_outputs c) ++ [10] ++
   flat_map bristol_gate (c_gates c).
 
+(* Circuit.MarshalFormat: the format-dispatching wrapper (used by compiler/ssa/circuitgen.go for
+   Params.CircOut/CircFormat and by apps/garbled).  None = "unsupported circuit format" and
+   nothing is written. *)
+Definition s_mpclc : list byte := [109;112;99;108;99].
+Definition s_bristol : list byte := [98;114;105;115;116;111;108].
+Definition MarshalFormat (format : list byte) (c : fcircuit) : option (list byte) :=
+  if list_eqb format s_mpclc then Some (Marshal c)
+  else if list_eqb format s_bristol then Some (MarshalBristol c)
+  else None.
+
 (* ------------------------------------------------------------------ *)
 (* bufio.Reader over a bytes.Reader: (bytes not yet consumed, how many of them are buffered) *)
 
